@@ -213,7 +213,7 @@ class FormattedValue(ExpressionPrinter):
         self.printer.append(str(Str(node.s, self.allowed_quotes, self.pep701)), TokenTypes.NonNumberLiteral)
 
     def visit_Bytes(self, node):
-        self.printer.append(str(Bytes(node.s, self.allowed_quotes)), TokenTypes.NonNumberLiteral)
+        self.printer.append(str(Bytes(node.s, self.allowed_quotes, self.pep701)), TokenTypes.NonNumberLiteral)
 
     def visit_JoinedStr(self, node):
         assert isinstance(node, ast.JoinedStr)
@@ -291,6 +291,11 @@ class Str(object):
                 literal += '\\r'
             elif c == '\\':
                 literal += '\\\\'
+            elif c == '\0':
+                literal += '\\x00'
+            elif self.pep701 and 0xD800 <= ord(c) <= 0xDFFF:
+                # A lone surrogate can't be encoded in the source
+                literal += '\\u%04x' % ord(c)
             else:
                 literal += c
 
@@ -302,7 +307,7 @@ class Str(object):
         if self._s == '':
             return str(min(self.allowed_quotes, key=len)) * 2
 
-        if '\0' in self._s or ('\\' in self._s and not self.pep701):
+        if ('\0' in self._s or '\\' in self._s) and not self.pep701:
             raise ValueError('Impossible to represent a character in f-string expression part')
 
         if not self.pep701 and ('\n' in self._s or '\r' in self._s):
@@ -371,10 +376,11 @@ class Bytes(object):
 
     """
 
-    def __init__(self, b, allowed_quotes):
+    def __init__(self, b, allowed_quotes, pep701=False):
         self._b = b
         self.allowed_quotes = allowed_quotes
         self.current_quote = None
+        self.pep701 = pep701
 
     def _can_quote(self, c):
         if self.current_quote is None:
@@ -411,7 +417,11 @@ class Bytes(object):
 
             if literal == '':
                 literal = 'b' + self.current_quote
-            literal += chr(b)
+
+            if self.pep701 and (b in [0, 13, 92] or b >= 128):
+                literal += '\\x%02x' % b
+            else:
+                literal += chr(b)
 
         if literal:
             literal += self.current_quote
@@ -421,7 +431,7 @@ class Bytes(object):
         if self._b == b'':
             return 'b' + str(min(self.allowed_quotes, key=len)) * 2
 
-        if b'\0' in self._b or b'\\' in self._b:
+        if (b'\0' in self._b or b'\\' in self._b) and not self.pep701:
             raise ValueError('Impossible to represent a %r character in f-string expression part')
 
         if b'\n' in self._b or b'\r' in self._b:
